@@ -61,7 +61,7 @@ CORE: list[tuple[str, list]] = [
     ('empty_closure', [('start', S(EMPTYC, T('a'), OPT(T('b'))))]),
     ('optional_in_seq', [('start', S(OPT(S(T('a'), T('b'))), T('a')))]),
     ('group_splice', [('start', S(GRP(S(T('a'), OPT(T('b')))), GRP(A(T('a'), T('c')))))]),
-    ('include', [('r', S(N('x', T('a')), OPT(T('b')))), ('start', S(INCL('r'), OPT(N('y', T('a')))))]),
+    ('include', [('start', S(C('q'), OPT(N('y', T('a'))))), ('r', S(N('x', T('a')), OPT(T('b')))), ('q', S(INCL('r'), OPT(N('z', T('b')))))]),      # (start first: the FIRST rule is the default start rule)
     ('closure_nested', [('start', REP(S(REP1(T('a')), T(','))))]),
     ('names_in_closure', [('start', REP(A(NL('x', T('a')), N('y', T('b')))))]),
     ('named_rule_or_const', [('start', S(N('x', C('r')), N('y', C('r')))), ('r', A(T('a'), K('0')))]),
